@@ -49,6 +49,31 @@ def run(ctx, obs):
     clamps(ctx, obs)
     purity(ctx, obs)
     estimator_formulas(ctx, obs)
+    every_exit_uses_dof(ctx, obs)
+
+
+def every_exit_uses_dof(ctx, obs, rule='DOF-EXIT'):
+    """The estimates are "with the stated degrees of freedom": whatever `_variance`, `_covariance_full`, `_covariance_eye` and
+    `_covariance_diag` return - on EVERY exit, shortcuts included - derives (explicit data flow) from their `dof` argument and from
+    the data.  A return whose value does not depend on `dof` has taken its normaliser from somewhere else (the number of rows)."""
+    prog = ctx.prog
+    for fn in ('_variance', '_covariance_full', '_covariance_eye', '_covariance_diag'):
+        q = N + fn
+        f = prog.func(q)
+        r = ctx.dep.analyze(q, data_only=True)
+        for node, tok, _ in r.returns:
+            if node is None or node.value is None:
+                continue
+            con = f'the value returned at `{norm(node)[:50]}` is normalised with the dof handed in'
+            ps = {t for t in tok if t.startswith('P:')}
+            if 'P:dof' in ps and 'P:matrix' in ps:
+                obs.ok(rule, q, con, '', where(prog, f, node))
+            elif 'P:matrix' in ps:
+                obs.bad(rule, q, con, f'`{norm(node)[:70]}` does not derive from `dof`: this exit uses another normaliser (e.g. the number of '
+                        f'rows - 1), so the estimate is not the one with the stated degrees of freedom whenever dof was passed in or '
+                        f'differs from rows - 1', where(prog, f, node))
+            else:
+                obs.unk(rule, q, con, f'return depends on {sorted(ps)}', where(prog, f, node))
 
 
 def dof_polynomials(ctx, obs, rule='POLY'):
@@ -217,8 +242,14 @@ def list_element(ctx, obs, q, rule='FWD-list'):
                     (isinstance(x, ast.Call) and isinstance(x.func, ast.Name) and x.func.id == 'ELEM' and x.args
                      and isinstance(x.args[0], ast.Name) and x.args[0].id == 'SRC0')
             ok = bool(alts) and all(_is_dof(a_) for a_ in alts)
-            obs.check(ok, rule, q, f'per-element call #{c.ordinal} uses the caller\'s dof (scalar or this element\'s entry)',
-                      f'dof is `{norm(e)}` = `{ast.unparse(inl_d.inline(e))[:80]}`', '', where(prog, f, c.node))
+            con_d = f'per-element call #{c.ordinal} uses the caller\'s dof (scalar or this element\'s entry)'
+            # a helper that is handed the caller's dof (and the position) decides; its body is out of this rule's sight
+            opaque = [a_ for a_ in alts if isinstance(a_, ast.Call) and isinstance(a_.func, ast.Name) and a_.func.id not in ('PHI', 'ELEM')
+                      and any(isinstance(x, ast.Name) and x.id == 'SRC0' for x in ast.walk(a_))]
+            if not ok and opaque and all(_is_dof(a_) or a_ in opaque for a_ in alts):
+                obs.unk(rule, q, con_d, f'dof is `{norm(e)}`: chosen by `{norm(opaque[0].func)}`, which receives the caller\'s dof', where(prog, f, c.node))
+            else:
+                obs.check(ok, rule, q, con_d, f'dof is `{norm(e)}` = `{ast.unparse(inl_d.inline(e))[:80]}`', '', where(prog, f, c.node))
             for a_ in alts:
                 if isinstance(a_, ast.Subscript):
                     idx_src = {t for t in (c.arg('dof') or frozenset()) if t.startswith('ITER:')}
